@@ -49,9 +49,9 @@ Lemma add_task_fields6 : forall s,
 Proof. intros. unfold add_task. simpl. destruct (qwait s); simpl; repeat split; reflexivity. Qed.
 
 Lemma g6_step_io : forall c s ch s' l,
-  Inv2 s -> G6 c s -> step_io c s ch = Some (s', l) -> taint s' = false -> G6 c s'.
+  Inv2 s -> G6 c s -> step_io c s ch = Some (s', l) -> G6 c s'.
 Proof.
-  intros c s ch s' l HI2 HG H Ht.
+  intros c s ch s' l HI2 HG H.
   pose proof (existsb_notify_mono act_tot (ws s) (fun p => proj1 (act_notified p))) as Hn1.
   pose proof (existsb_notify_mono act_wc (ws s) (fun p => proj1 (proj2 (act_notified p)))) as Hn2.
   pose proof (existsb_notify_mono act_cwf (ws s) (fun p => proj2 (proj2 (act_notified p)))) as Hn3.
@@ -81,9 +81,9 @@ Proof.
 Qed.
 
 Lemma g6_step_w : forall c s i ch s' l,
-  Inv1 s -> Inv2 s -> Inv3 s -> G6 c s -> step_w c s i ch = Some (s', l) -> taint s' = false -> G6 c s'.
+  Inv1 s -> Inv2 s -> Inv3 s -> G6 c s -> step_w c s i ch = Some (s', l) -> G6 c s'.
 Proof.
-  intros c s i ch s' l HI1 HI2 HI3 HG H Ht. unfold step_w in H.
+  intros c s i ch s' l HI1 HI2 HI3 HG H. unfold step_w in H.
   destruct (getw s i) as [pc|] eqn:Hg; [|discriminate]. unfold getw in Hg.
   assert (Hscx : w_scx pc = true -> conn s = false) by (intros Hx; eapply (i3_scx _ HI3); eauto).
   assert (Hlen : (i < length (ws s))%nat) by (apply nth_error_Some; congruence).
@@ -93,7 +93,6 @@ Proof.
     by (intros; eapply existsb_upd_keep; eauto).
   unfold G6 in HG.
   step_cases H; free_hyps; simpl in Hscx.
-  all: simpl in Ht; try discriminate Ht.
   all: unfold setw, hw_exit in *.
   all: repeat match goal with |- context [if ?b then _ else _] => destruct b eqn:? end.
   all: repeat match goal with |- context [match ?b with SWr _ => _ | SEnd => _ end] => destruct b eqn:? end.
@@ -124,12 +123,14 @@ Proof.
     right; left. destruct (io s); simpl in Hl; try discriminate; reflexivity.
   - destruct (Hc3 eq_refl) as [Hx'|Hl]; [congruence|].
     right; left. destruct (io s); simpl in Hl; try discriminate; reflexivity.
+  - destruct (Hc3 eq_refl) as [Hx'|Hl]; [congruence|].
+    right; left. destruct (io s); simpl in Hl; try discriminate; reflexivity.
 Qed.
 
 Lemma g6_step : forall c s ch s' l,
-  Inv1 s -> Inv2 s -> Inv3 s -> G6 c s -> step c s ch = Some (s', l) -> taint s' = false -> G6 c s'.
+  Inv1 s -> Inv2 s -> Inv3 s -> G6 c s -> step c s ch = Some (s', l) -> G6 c s'.
 Proof.
-  intros c s ch s' l HI1 HI2 HI3 HI H Ht. unfold step in H. destruct ch;
+  intros c s ch s' l HI1 HI2 HI3 HI H. unfold step in H. destruct ch;
     try (eapply g6_step_io; eauto; fail); try (eapply g6_step_w; eauto; fail).
   - destruct (gone s); [discriminate|]. inversion H; subst. exact HI.
   - destruct (gone s); [discriminate|]. inversion H; subst. exact HI.
